@@ -249,12 +249,40 @@ static struct _echsd_s *ctx;
 /* a request as sock_data_cb handles it, reply captured from a pipe.  chunks: NULL = the whole text arrives with one
  * recv(); otherwise a comma separated list of sizes: the text arrives in pieces of these sizes (the last size repeats),
  * each handled like one readable event of the connection, followed by the end-of-file event */
+/* the connection table: every request lives in a slot of the daemon's own table (make_conn()/free_conn()), like a peer that
+ * has been accepted; the script can hold further connections open (CO) and close them (CC).  What the table hands out is logged
+ * together with what the harness itself knows to be held; nothing is judged here. */
+static struct echs_conn_s *held[256]; static size_t nheld;
+static struct echs_conn_s *slot_open(void)
+{
+	struct echs_conn_s *c = make_conn();
+	long k = c ? (long)(c - conns) : -1; int clash = 0;
+	for (size_t i = 0; i < nheld; i++) if (c && held[i] == c) clash = 1;
+	fprintf(o, "{\"e\":\"Slot\",\"op\":\"open\",\"slot\":%ld,\"nheld\":%zu,\"clash\":%s}\n", k, nheld, clash ? "true" : "false");
+	if (c && nheld < 256) held[nheld++] = c;
+	return c;
+}
+static void slot_close(struct echs_conn_s *c)
+{
+	size_t k = 0; for (size_t i = 0; i < nheld; i++) if (held[i] != c) held[k++] = held[i]; else c = held[i];
+	fprintf(o, "{\"e\":\"Slot\",\"op\":\"close\",\"slot\":%ld,\"nheld\":%zu,\"clash\":false}\n", (long)(c - conns), nheld);
+	nheld = k;
+	free_conn(c);
+}
 static void do_request_chunked(const char *kind, uid_t peer, char *text, const char *chunks)
 {
 	int pfd[2]; if (__real_pipe(pfd) < 0) return;
 	fcntl(pfd[0], F_SETFL, O_NONBLOCK);
-	struct echs_cmdparam_s param; memset(&param, 0, sizeof(param));
+	struct echs_conn_s *conn = slot_open();
+	if (conn == NULL) {
+		/* the table is full: the daemon closes the connection without an answer */
+		__real_close(pfd[0]); __real_close(pfd[1]);
+		fprintf(o, "{\"e\":\"Refused\",\"kind\":\"%s\",\"peer\":%u}\n", kind, peer);
+		return;
+	}
+#define param (*conn->cmd)
 	ncred_t cred = {peer, peer, "/tmp", "/bin/sh"};
+	conn->cred = cred;
 	size_t len = strlen(text);
 	const char *what = "unk";
 	if (chunks == NULL) {
@@ -269,7 +297,7 @@ static void do_request_chunked(const char *kind, uid_t peer, char *text, const c
 		while (!done) {
 			if (cp && *cp) { sz = strtoul(cp, (char**)&cp, 10); if (*cp == ',') cp++; if (!sz) sz = 1; }
 			size_t n = len - off < sz ? len - off : sz;      /* n == 0: the peer has closed its end */
-			static char iobuf[4096]; if (n > sizeof(iobuf)) n = sizeof(iobuf);
+			char *iobuf = conn->buf; if (n > conn->bsz) n = conn->bsz;	/* the connection's own buffer */
 			memcpy(iobuf, text + off, n); off += n;
 			switch (feed_cmd(&param, iobuf, n)) {
 			case ECHS_CMD_HTTP: what = "http"; (void)cmd_http(&the_loop, pfd[1], &param.http, cred); done = 1; break;
@@ -279,6 +307,8 @@ static void do_request_chunked(const char *kind, uid_t peer, char *text, const c
 		}
 	}
 	shut_cmd(&param);
+#undef param
+	slot_close(conn);
 	__real_close(pfd[1]);
 	static char rb[1 << 20]; size_t n = 0; ssize_t r;
 	while ((r = read(pfd[0], rb + n, sizeof(rb) - 1 - n)) > 0) n += r;
@@ -326,6 +356,8 @@ int main(int argc, char *argv[])
 			/* AC \t peer \t sizes \t text: the request arrives in pieces */
 			char *a3 = a2 ? strchr(a2, '\t') : NULL; if (a3) { *a3++ = 0; do_request_chunked("Req", (uid_t)strtoul(a1, 0, 10), unesc(a3), a2); }
 		}
+		else if (!strcmp(line, "CO")) { for (long k = atol(a1); k > 0; k--) (void)slot_open(); }
+		else if (!strcmp(line, "CC")) { if (nheld) slot_close(held[(size_t)atol(a1) % nheld]); }
 		else if (!strcmp(line, "H")) { char rq[512]; snprintf(rq, sizeof(rq), "%s\r\n\r\n", a2); do_request("Http", (uid_t)strtoul(a1, 0, 10), rq); }
 		else if (!strcmp(line, "T")) { the_loop.now += atof(a1); fprintf(o, "{\"e\":\"Tick\",\"now\":%.1f}\n", the_loop.now - T0); }
 		else if (!strcmp(line, "R")) { hx_reify(); fprintf(o, "{\"e\":\"Reify\",\"now\":%.1f}\n", the_loop.now - T0); }
